@@ -362,10 +362,30 @@ func c19Empty(c *fw.Ctx, i int) {
 func c19Invalid(c *fw.Ctx, i int) {
 	r := c.R
 	n := r.Range(1, 4)
-	v := c19Build(r, n, 1+r.Intn(1<<(4*uint(n))-1), r.Bool())
+	mask := 1 + r.Intn(1<<(4*uint(n))-1)
+	full := r.Chance(1, 4)
+	if full {
+		n, mask = 4, 0xFFFF // all sixteen slots taken: whatever is wrong comes after a complete table
+	}
+	v := c19Build(r, n, mask, r.Bool())
 	lv := c19ToLib(v)
 	kind := ""
+	if full && r.Bool() {
+		// a seventeenth entry that is a duplicate, has no bitrates, or names a slot that does not exist
+		extra := lv.ActiveSpatialLayer[r.Intn(len(lv.ActiveSpatialLayer))]
+		extra.TargetBitrates = []int{7}
+		kind = "entry-after-a-full-table/duplicate"
+		switch r.Intn(3) {
+		case 1:
+			extra.TargetBitrates, kind = nil, "entry-after-a-full-table/no-bitrates"
+		case 2:
+			extra.SpatialID, kind = r.Pick(4, 5, -1), "entry-after-a-full-table/spatial-id"
+		}
+		lv.ActiveSpatialLayer = append(lv.ActiveSpatialLayer[:len(lv.ActiveSpatialLayer):len(lv.ActiveSpatialLayer)], extra)
+		i = -1
+	}
 	switch i % 10 {
+	case -1:
 	case 0:
 		lv.RTPStreamCount, kind = 0, "count-0"
 	case 1:
